@@ -460,3 +460,53 @@ pub const HOSTILE: &[&str] = &[
     "GET / HTTP/1.1\r\nHost: x\r\n\r\n",
     "0\r\n\r\n",
 ];
+
+/// A text that a too-coarse cache key would confuse with `base`.
+pub fn sibling(rng: &mut Rng, base: &str) -> String {
+    let mut lines: Vec<String> = base.split('\n').map(|s| s.to_string()).collect();
+    let drawing = ['-', '|', '+', '*', 'o', '/', '\\', '.', '\'', '#', 'x', ' '];
+    match rng.below(9) {
+        0 | 1 => {
+            // same length, one character changed
+            let mut cs: Vec<char> = base.chars().collect();
+            let idxs: Vec<usize> = cs.iter().enumerate().filter(|(_, c)| **c != '\n').map(|(i, _)| i).collect();
+            if !idxs.is_empty() {
+                let i = *rng.pick(&idxs);
+                let mut c = *rng.pick(&drawing);
+                if c == cs[i] {
+                    c = if cs[i] == '-' { '|' } else { '-' };
+                }
+                cs[i] = c;
+            }
+            cs.into_iter().collect()
+        }
+        2 => {
+            // same first line(s), different tail
+            let keep = (lines.len() / 2).max(1);
+            lines.truncate(keep);
+            lines.push("  +--+  o-->".to_string());
+            lines.join("\n")
+        }
+        3 => {
+            // different first line, same tail
+            if !lines.is_empty() {
+                lines[0] = format!("*{}", lines[0]);
+            }
+            lines.join("\n")
+        }
+        4 => format!("\n{}", base),     // leading blank line
+        5 => format!(" {}", base),      // first line indented
+        6 => format!("{}\n\n", base.trim_end()), // trailing whitespace
+        7 => base.trim().to_string(),
+        _ => {
+            // two lines swapped (same multiset of lines, same length)
+            if lines.len() >= 2 {
+                let i = rng.usize_below(lines.len());
+                let j = rng.usize_below(lines.len());
+                lines.swap(i, j);
+            }
+            lines.join("\n")
+        }
+    }
+}
+
